@@ -849,8 +849,9 @@ func replayFile(cfg *Config, path string) int {
 	}
 	sc := findScenario(cfg, doc.Scenario)
 	if sc == nil {
-		fmt.Printf("ENGINE-ERROR unknown scenario %s\n", doc.Scenario)
-		return 2
+		// exit code 3: the replay file belongs to another part (harness) of a multi-part check; ./check moves on
+		fmt.Printf("NOT-IN-THIS-PART unknown scenario %q\n", doc.Scenario)
+		return 3
 	}
 	x, err := RunOnce(sc, doc.Choices, doc.Sigs, true)
 	for _, l := range x.Res.Trace {
